@@ -73,6 +73,10 @@ CHECKS.update({
     "C20": dict(technique="TLA+ module Resolver.tla: the resolution decision procedure written from the statement (TLC enumerates every host list in the bounds and evaluates look-ups / ordered result / error plus the procedure's own properties) replayed case by case into the real async_resolve_host; the zeroconf ownership state machine model-checked (SuppliedNeverClosed, CreatedClosedWhenDone) and every operation sequence on the real ZeroconfManager validated by TLC against TraceResolver.tla", text="Exhaustive over the bounded case space: 11 100 host lists (forms x mDNS outcome x OS outcome) compared on look-ups performed, ordered AddrInfo list (family order, scope id, port) and error; all operation sequences of length <= 5 (thorough 7) over {supply, look-up, listen, stop} on the real manager.", design="§3.8, §6 C20", note="Fakes stand in for zeroconf's AsyncServiceInfo/AsyncZeroconf and loop.getaddrinfo; a non-numeric scope maps to 0; an OS-resolver error aborts the resolution with a connection error. " + TB),
 })
 
+CHECKS.update({
+    "C15": dict(technique="TLA+ module Commands.tla: the declarative command table (argument -> wire field(s), presence flag, transform; legacy encodings keyed on the negotiated version); TLC enumerates command x subset of optional arguments x value class x version and evaluates Expected; every case replayed on a real client connected with that version, the full field map of the written frame compared", text="Exhaustive in the thorough tier (25 011 command cases incl. all 4 096 subsets of light_command x 3 classes x versions, 192 service-argument cases); quick samples light/climate subsets and runs every other command fully. Falsy values, ms conversion, colour split and the three legacy rules are part of the table.", design="§3.9, §6 C15", note="Known finding: lock_command(code) omits has_code (pinned by an existing test). protobuf decoding of the written frame is trusted. " + TB),
+})
+
 NOT_YET = {}
 
 
